@@ -36,3 +36,89 @@ PROPS = {
     "C20": dict(runs=runs([("core", D), ("block", D), ("chunk", D)]),
                 assumptions=["wall-clock time is not modelled; the claim is about counted cursor travel and block loads"]),
 }
+
+
+# ------------------------------------------------------------------------------------------------
+# property-specific extra stages
+
+C13_VARIANTS = {
+    # variant: BuildEnv bits  std miri disable ge159 parsed disct flok sse42 avx2
+    "dev": "100110100", "release": "100110100",
+    "dev-sse42": "100110110", "dev-avx2": "100110111", "dev-nosimd": "101110100",
+    "dev-runtimeonly": "100111111", "dev-nostd": "000110100",
+    "release-sse42": "100110110", "release-avx2": "100110111", "release-nosimd": "101110100", "release-nostd": "000110100",
+}
+
+
+def special(prop, tier, seed, th, chk):
+    import subprocess, json, os, time
+    if prop != "C13":
+        return None
+    out = []
+    variants = ["dev", "release", "dev-sse42", "dev-avx2", "dev-nosimd", "dev-runtimeonly", "dev-nostd"]
+    if tier == "thorough":
+        variants += ["release-sse42", "release-avx2", "release-nosimd", "release-nostd"]
+    fails, stats, samples = [], {}, {}
+    t0 = time.time()
+    n = 0
+    for v in variants:
+        binp, err = chk.build_harness(v)
+        if binp is None:
+            fails.append("FAIL C13 hard | build variant does not compile | variant=%s | %s" % (v, err[-600:].replace("\n", " ")))
+            continue
+        info = subprocess.run([binp, "info"], capture_output=True, text=True, env=chk.ENV).stdout.strip()
+        want = subprocess.run([chk.DRIVER, "buildflags"], input="buildenv %s x86_64\n" % C13_VARIANTS[v], capture_output=True, text=True, env=chk.ENV).stdout.strip()
+        n += 1
+        kv = dict(x.split("=", 1) for x in info.split() if "=" in x)
+        wkv = dict(x.split("=", 1) for x in want.split("=> ")[-1].split() if "=" in x)
+        ok = all(kv.get(k) == wkv.get(k) for k in ("simd", "sse42", "avx2", "neon_intrinsics")) and wkv.get("providers") == "[%s]" % kv.get("provider")
+        samples["variant." + v] = info
+        if not ok:
+            fails.append("FAIL C13 hard | cfg flags / provider of a real build differ from Hx.Build + the generated lattice | variant=%s | real: %s | model: %s" % (v, info, want))
+        # the shared corpus under this variant (judged against the one model): scanners, placements, chunk sizes
+        for fam in (["place", "chunk", "scan"] if v not in ("dev", "release") else []):
+            r = chk.family_run(fam, tier, seed, v, th)
+            out.append(r)
+        # 16-thread cold-start races in fresh processes
+        if "nostd" not in v:
+            for i in range(40 if tier == "quick" else 400):
+                o = subprocess.run([binp, "race", "16"], capture_output=True, text=True, env=chk.ENV).stdout.strip()
+                n += 1
+                if "all_same=true first=[E:HeaderValue m=0+3 p=4+73]" not in o:
+                    fails.append("FAIL C13 hard | threads racing on their first parse call disagree | variant=%s run=%d | %s" % (v, i, o))
+                    break
+                m = o.split("runtime=")[-1]
+                if m not in ("None",) and not any(m == "Some((%d, %d))" % (c, d) for d in (1, 2, 3) for c in (0, d)):
+                    fails.append("FAIL C13 hard | feature cache holds a value other than 0 or the detected feature | variant=%s | %s" % (v, o))
+                    break
+            samples["race." + v] = o
+    stats["cases.variants_and_races"] = n
+    stats["nontrivial.variants"] = n
+    out.append({"family": "variants+races", "variant": "all", "n": n, "fails": fails, "nfails": len(fails), "stats": stats, "samples": samples, "wall": time.time() - t0, "cached": False})
+    if tier == "thorough":
+        # all 32 switch combinations: std x disable x disable_compiletime x {none, sse4.2, avx2, sse4.2+avx2}
+        fails2 = []
+        k = 0
+        for std in (1, 0):
+            for dis in (0, 1):
+                for dct in (0, 1):
+                    for (s4, a2, tf) in ((0, 0, ""), (1, 0, "-C target-feature=+sse4.2"), (0, 1, "-C target-feature=+avx2"), (1, 1, "-C target-feature=+avx2,+sse4.2")):
+                        name = "combo-%d%d%d%d%d" % (std, dis, dct, s4, a2)
+                        flags = tf + (' --cfg httparse_disable_simd="1"' if dis else "") + (' --cfg httparse_disable_simd_compiletime="1"' if dct else "")
+                        chk.VARIANTS[name] = ("", flags.strip(), [] if std else ["--no-default-features"])
+                        binp, err = chk.build_harness(name)
+                        k += 1
+                        if binp is None:
+                            fails2.append("FAIL C13 hard | switch combination does not compile | %s | %s" % (name, err[-400:].replace("\n", " ")))
+                            continue
+                        info = subprocess.run([binp, "info"], capture_output=True, text=True, env=chk.ENV).stdout.strip()
+                        bits = "%d0%d11%d1%d%d" % (std, dis, dct, s4, a2)
+                        want = subprocess.run([chk.DRIVER, "buildflags"], input="buildenv %s x86_64\n" % bits, capture_output=True, text=True, env=chk.ENV).stdout.strip()
+                        kv = dict(x.split("=", 1) for x in info.split() if "=" in x)
+                        wkv = dict(x.split("=", 1) for x in want.split("=> ")[-1].split() if "=" in x)
+                        if not (all(kv.get(q) == wkv.get(q) for q in ("simd", "sse42", "avx2", "neon_intrinsics")) and wkv.get("providers") == "[%s]" % kv.get("provider")):
+                            fails2.append("FAIL C13 hard | cfg flags / provider differ from Hx.Build | %s | real: %s | model: %s" % (name, info, want))
+                        import shutil
+                        shutil.rmtree(os.path.join(chk.BUILD, "h-" + name), ignore_errors=True)
+        out.append({"family": "switch-combinations", "variant": "32", "n": k, "fails": fails2, "nfails": len(fails2), "stats": {"cases.combos": k, "nontrivial.combos": k}, "samples": {}, "wall": 0, "cached": False})
+    return out
